@@ -389,6 +389,8 @@ class MainLoop:
         self.logger.debug(f"Starting event loop {self.event_loop.__class__.__name__!r} to manage display.")
 
         self.screen.start()
+        # no "window resize" is delivered while the screen is stopped: ask for the size again
+        self.screen_size = None
 
         if self.handle_mouse:
             self.screen.set_mouse_tracking()
